@@ -389,12 +389,8 @@ func NewRateLimiter(config RateLimiterConfig) *RateLimiter {
 
 // AllowRequest checks if a request should be allowed
 func (rl *RateLimiter) AllowRequest(ip string, connID string) bool {
-	// Check global limit first
-	if !rl.globalLimiter.Allow() {
-		return false
-	}
-
-	// Check per-IP limit
+	// Check the client's own limits first, so that traffic refused by them
+	// never consumes capacity shared with other clients
 	if !rl.perIPLimiter.Allow(ip) {
 		return false
 	}
@@ -414,6 +410,11 @@ func (rl *RateLimiter) AllowRequest(ip string, connID string) bool {
 				return false
 			}
 		}
+	}
+
+	// Check global limit last
+	if !rl.globalLimiter.Allow() {
+		return false
 	}
 
 	return true
